@@ -97,7 +97,7 @@ def run_case(acc, rnd, tier, case):
                 dlog.append((_tid, type(ev).__name__, ev.name, dict(ev.data)))
             h = _nd.it.bind(cb)
             _nd.bindings.append([h, tid])
-            dlog.append(('BIND', id(h), tid))
+            dlog.append(('BIND', id(h), tid, _nd.i))
             _nd.pr.log.append(('BIND', id(h)))
             acc.count('bind_from_action_code')
 
@@ -145,6 +145,18 @@ def run_case(acc, rnd, tier, case):
                     snd.it.detach(h[2])
                     snd.bindings.remove(ent)
                     dlog.append(('DETACH', id(h[2]), snd.i))
+                    if rnd.random() < 0.3:
+                        # the same callback binds a replacement (fail-over): the detached one gets nothing any more; whether the
+                        # new one gets what was sent before it was bound is left open
+                        ntid = ('cb', 500 + len(dlog))
+
+                        def ncb(ev, _t=ntid):
+                            dlog.append((_t, type(ev).__name__, ev.name, dict(ev.data)))
+                        nh = snd.it.bind(ncb)
+                        snd.bindings.append([nh, ntid])
+                        dlog.append(('BIND', id(nh), ntid, snd.i))
+                        snd.pr.log.append(('BIND', id(nh)))
+                        acc.count('bind_inside_detaching_callback')
                     stats['inside'] += 1
                     acc.count('detach_inside_callback')
                     if ent[1] == tid:
@@ -204,6 +216,10 @@ def run_case(acc, rnd, tier, case):
             snd.it.attach(b[0])
             snd.bindings.append([b[0], b[1]])
             acc.count('listener_object_attached_twice')
+            if b[1][0] == 'cb' and b[1] not in bombs and rnd.random() < 0.35:
+                # that receiver fails once; the sender that was delivering is given up (never used again) - the other
+                # interpreter the same listener object is attached to goes on being served
+                bombs[b[1]] = rnd.randint(1, 3)
             return b[0]
         if tid[0] == 'interp':
             h = snd.it.bind(nodes[tid[1]].it)
@@ -296,7 +312,7 @@ def step_and_check(acc, rnd, nd, nodes, dlog, history, wit):
         # the interpreter is used further (a caller may catch the error and go on): whatever it does then, what it delivers
         # must be what the MacroSteps it returns list as sent
         nd.wounded += 1
-        if nd.wounded > 4:
+        if nd.wounded > 4 or 'planned failure of receiver' in str(e):
             nd.dead = True
         history.append(('raise', nd.i, type(e).__name__))
         return True
@@ -358,7 +374,7 @@ def step_and_check(acc, rnd, nd, nodes, dlog, history, wit):
             if got[gi][0] == 'DETACH':
                 if got[gi][2] == nd.i:          # (the same listener object may be attached to another sender: not our business)
                     detached.add(got[gi][1])
-            else:
+            elif got[gi][3] == nd.i:
                 active.append([got[gi][1], got[gi][2], True])
             gi += 1
     for e in sent:
